@@ -81,7 +81,10 @@ pub fn chain(rec: &CallRec, codec: CodecKind) -> Result<Chain, V> {
             }
         }
     }
-    if !rec.res.is_panic() && cur != rec.post.id {
+    // a call that failed half-way with an encode error (packet too small for a header: outside the
+    // configurations the properties quantify over) may have switched identity without getting to tell
+    let aborted = matches!(rec.res, Res::Err(EK::Encode));
+    if !rec.res.is_panic() && !aborted && cur != rec.post.id {
         return Err(V::new(
             "C07/identity-chain-end",
             format!("identity() is {:?} after the call but the call's datagrams/notifications end with {cur:?}", rec.post.id),
